@@ -11,7 +11,7 @@ Script keys (origin.h2_script):
   order           'fifo' | 'reverse' | 'interleave' (DATA round-robin across held streams)
   data_chunk      size of response DATA frames
   after_end       'ping' | 'wu': a PING / one byte of connection credit follows each response 10 ms later
-  actions         [{'when': ('head'|'end', n), 'do': 'goaway'|'rst'|'settings'|'ping'|'close',
+  actions         [{'when': ('head'|'end', n), 'do': 'goaway'|'rst'|'settings'|'ping'|'ping-gate'|'close',
                     ...args}]  n = ordinal of the request on this connection; optional 'conn': k restricts
                     the action to the k-th connection the origin accepted
 """
@@ -236,12 +236,16 @@ class H2Server:
         self.deferred_settings: list = []
         self.mut_done = False
         self.mut_close = False
+        self.gated = False
+        self.ping_gates = 0
 
     # -------------------------------------------------------------------------
     def goaway_consumed(self) -> bool:
         return self.goaway_end is not None and self.tr.consumed >= self.goaway_end
 
     def _flush(self, delay: float = 0.0) -> None:
+        if self.gated:
+            return  # 'ping-gate': nothing leaves until the client has acknowledged the PING
         data = self.conn.data_to_send()
         if data:
             mut = self.script.get("mutate")
@@ -407,6 +411,11 @@ class H2Server:
         elif isinstance(ev, h2.events.SettingsAcknowledged):
             if self.deferred_settings and not self.ledger.pending_settings:
                 self._send_settings(self.deferred_settings.pop(0))
+        elif isinstance(ev, h2.events.PingAckReceived):
+            if self.gated and bytes(ev.ping_data) == b"hvgatepg":
+                self.gated = False
+                self._flush()
+                self._pump()
         elif isinstance(ev, h2.events.WindowUpdated):
             pass
         elif isinstance(ev, h2.events.ConnectionTerminated):
@@ -576,6 +585,13 @@ class H2Server:
                     self.deferred_settings.append(s)
                 else:
                     self._send_settings(s)
+            elif do == "ping-gate":
+                # liveness / bandwidth probing as gRPC servers do it: a PING, and nothing more until it is acknowledged
+                self._flush()
+                self.conn.ping(b"hvgatepg")
+                self._flush()
+                self.gated = True
+                self.ping_gates += 1
             elif do == "ping":
                 self.conn.ping(b"hvpingpg")
                 self._flush()
